@@ -32,17 +32,24 @@ def tree_has_builtin(t):
 MARKER = re.compile(r"[A-Za-z_0-9!]*[#\u2620][#?!A-Za-z_0-9\u2620]*")
 
 
-def unparsable_signature(text, codes):
-    """what in the rebuilt text is not Penne: the extra-syntactical markers of the rebuilder, names abstracted"""
+def unparsable_signatures(text, codes):
+    """what in the rebuilt text is not Penne: one signature per extra-syntactical marker of the rebuilder (names and
+    word sizes abstracted), so that the keys form a small fixed set"""
     marks = set()
     for m in MARKER.findall(text or ""):
-        g = re.sub(r"^(struct|word\d+)#\??#?\w*", r"\1#NAME", m)
+        g = re.sub(r"^struct#\??#?\w*", "struct#NAME", m)
+        if g == m:
+            g = re.sub(r"^word\d+#\w*", "wordN#NAME", m)
         if g == m:
             g = re.sub(r"^\w+#\?", "NAME#?", m)
         if g == m:
             g = re.sub(r"^\w+#(\d+)", "NAME#ID", m)
         marks.add(g)
-    return "codes %s markers %s" % (sorted(set(codes or [])), sorted(marks))
+    if marks:
+        return ["marker %s (codes %s)" % (m, sorted(set(codes or []))) for m in sorted(marks)]
+    if (text or "").strip() == "":
+        return ["a module without declarations is rebuilt as zero-byte text (codes %s)" % sorted(set(codes or []))]
+    return None
 
 
 def first_text_diff(a, b):
@@ -70,8 +77,8 @@ def judge(what, exp, rt, fnd, stats, ex):
     if gc.norm20(rt["t0"]) != n_exp:
         stats["first_parse_differs"] += 1     # C16's business; the oracle for the round trip stays the specification's tree
     if o == "rejected1":
-        fnd.add("rebuild-unparsable", unparsable_signature(rt.get("text1"), rt.get("codes")),
-                ex("the rebuilt text does not parse"))
+        for sig in unparsable_signatures(rt.get("text1"), rt.get("codes")) or ["codes %s: %s" % (rt.get("codes"), what)]:
+            fnd.add("rebuild-unparsable", sig, ex("the rebuilt text does not parse"))
         stats["unparsable"] += 1
         return
     t1 = rt["t0"] if rt["t1"] == "=t0" else rt["t1"]
